@@ -40,6 +40,9 @@ type WeatherDataShared struct {
 	CO2KONZ  []float64      // CO2 concentration 						ppm
 
 	MaxYearDays []int // days in each year (365 or 366)
+	// optional values of the records next to the loaded period, if the file starts earlier / ends later
+	dayBefore *weatherNeighbour
+	dayAfter  *weatherNeighbour
 	// flags for optional parameters (if true the corresponting arrays contain valid values)
 	hasWINDHI   bool
 	hasALTITUDE bool
@@ -47,6 +50,21 @@ type WeatherDataShared struct {
 	hasVERD     bool
 	hasSUND     bool
 	hasETNULL   bool
+}
+
+// weatherNeighbour holds the optional values of a record that is adjacent to the loaded period
+type weatherNeighbour struct {
+	tavg, verd, sunh float64
+}
+
+// neighbourValue parses an optional column of a record outside the loaded period
+func neighbourValue(tokens []string, h map[Header]int, col Header, noneValue float64) float64 {
+	if idx, ok := h[col]; ok && idx < len(tokens) {
+		if val, err := strconv.ParseFloat(tokens[idx], 64); err == nil {
+			return val
+		}
+	}
+	return noneValue
 }
 
 // NewWeatherDataShared returns a new WeatherDataShared struct
@@ -379,6 +397,11 @@ func ReadWeatherCSV(VWDAT string, startyear int, g *GlobalVarsMain, s *WeatherDa
 		d.datetime, err[7] = time.Parse("2006-01-02", isodate)
 		// skip years before start year
 		if d.datetime.Year() < startyear {
+			// the last skipped record is the day before the first loaded day
+			s.dayBefore = &weatherNeighbour{
+				tavg: neighbourValue(tokens, h, tavg, driConfig.WeatherNoneValue),
+				verd: neighbourValue(tokens, h, verd, driConfig.WeatherNoneValue),
+				sunh: neighbourValue(tokens, h, sunhours, driConfig.WeatherNoneValue)}
 			continue
 		}
 		d.wind, err[0] = strconv.ParseFloat(tokens[h[wind]], 64)
@@ -424,6 +447,8 @@ func ReadWeatherCSV(VWDAT string, startyear int, g *GlobalVarsMain, s *WeatherDa
 			return fmt.Errorf("%s Failed to parse file: %s, error: missing days", g.LOGID, VWDAT)
 		}
 		if yrz > len(s.JAR) {
+			// the first record past the loaded period is the day after the last loaded day
+			s.dayAfter = &weatherNeighbour{tavg: d.tavg, verd: d.verd, sunh: d.sunh}
 			yrz--
 			break
 		}
@@ -511,6 +536,11 @@ func ReadWeatherCZ(VWDAT string, startyear int, g *GlobalVarsMain, s *WeatherDat
 		d.datetime, err[0] = time.Parse("2006002", doydate)
 		// skip years before start year
 		if d.datetime.Year() < startyear {
+			// the last skipped record is the day before the first loaded day
+			s.dayBefore = &weatherNeighbour{
+				tavg: driConfig.WeatherNoneValue,
+				verd: neighbourValue(tokens, h, verd, driConfig.WeatherNoneValue),
+				sunh: neighbourValue(tokens, h, sunhours, driConfig.WeatherNoneValue)}
 			continue
 		}
 		if d.datetime.Year() < startyear {
@@ -566,6 +596,8 @@ func ReadWeatherCZ(VWDAT string, startyear int, g *GlobalVarsMain, s *WeatherDat
 			return fmt.Errorf("%s Failed to parse file: %s, error: missing days", g.LOGID, VWDAT)
 		}
 		if yrz > len(s.JAR) {
+			// the first record past the loaded period is the day after the last loaded day
+			s.dayAfter = &weatherNeighbour{tavg: d.tavg, verd: d.verd, sunh: d.sunh}
 			yrz--
 			break
 		}
@@ -643,24 +675,39 @@ func (s *WeatherDataShared) replaceMissingValues(yrz int, noneValue float64) {
 				prevYear = prevYear - 1
 			}
 
-			if prevIndex >= 0 && prevYear >= 0 && nextIndex >= 0 && nextYear >= 0 {
+			hasPrev := prevIndex >= 0 && prevYear >= 0
+			hasNext := nextIndex >= 0 && nextYear >= 0
+			var prev, next weatherNeighbour
+			if hasPrev {
+				prev = weatherNeighbour{tavg: s.TMP[prevYear][prevIndex], verd: s.VERD[prevYear][prevIndex], sunh: s.SUND[prevYear][prevIndex]}
+			} else if y == 0 && index == 0 && s.dayBefore != nil {
+				// the file starts before the loaded period
+				prev, hasPrev = *s.dayBefore, true
+			}
+			if hasNext {
+				next = weatherNeighbour{tavg: s.TMP[nextYear][nextIndex], verd: s.VERD[nextYear][nextIndex], sunh: s.SUND[nextYear][nextIndex]}
+			} else if y == yrz-1 && index == T-1 && s.dayAfter != nil {
+				// the file ends after the loaded period
+				next, hasNext = *s.dayAfter, true
+			}
+			if hasPrev && hasNext {
 
 				if s.TMP[y][index] == noneValue &&
-					s.TMP[prevYear][prevIndex] != noneValue &&
-					s.TMP[nextYear][nextIndex] != noneValue {
-					s.TMP[y][index] = (s.TMP[prevYear][prevIndex] + s.TMP[nextYear][nextIndex]) / 2
+					prev.tavg != noneValue &&
+					next.tavg != noneValue {
+					s.TMP[y][index] = (prev.tavg + next.tavg) / 2
 				}
 
 				if s.VERD[y][index] == noneValue &&
-					s.VERD[prevYear][prevIndex] != noneValue &&
-					s.VERD[nextYear][nextIndex] != noneValue {
-					s.VERD[y][index] = (s.VERD[prevYear][prevIndex] + s.VERD[nextYear][nextIndex]) / 2
+					prev.verd != noneValue &&
+					next.verd != noneValue {
+					s.VERD[y][index] = (prev.verd + next.verd) / 2
 				}
 
 				if s.SUND[y][index] == noneValue &&
-					s.SUND[prevYear][prevIndex] != noneValue &&
-					s.SUND[nextYear][nextIndex] != noneValue {
-					s.SUND[y][index] = (s.SUND[prevYear][prevIndex] + s.SUND[nextYear][nextIndex]) / 2
+					prev.sunh != noneValue &&
+					next.sunh != noneValue {
+					s.SUND[y][index] = (prev.sunh + next.sunh) / 2
 				}
 			} else {
 				if s.TMP[y][index] == noneValue {
